@@ -43,6 +43,7 @@ def jCell : Cell → String
 def jArray : Option ArrayData → String
   | none => "null"
   | some a => "{\"names\":" ++ jList (a.names.map (fun n => jList [jValue n.1, jValue n.2])) ++
+      s!",\"null\":[{a.null.1},{a.null.2}]" ++
       ",\"frames\":" ++ jList (a.frames.map (fun r => jList (r.map jCell))) ++ "}"
 
 def jFile (f : LasFile) : String :=
